@@ -1,8 +1,10 @@
 package main
 
 import (
+	"bytes"
 	"encoding/json"
 	"fmt"
+	"os"
 	"sort"
 	"strings"
 
@@ -26,21 +28,25 @@ type level struct {
 }
 
 type runner struct {
-	env    *Env
-	sweep  int
-	st     *stats
-	A, B   *Inst
-	levels []*level // levels[h], levels[0] = genesis
-	tr     *tracker
-	beh    rep.Behaviour
-	upto   int
-	failed bool
+	env       *Env
+	sweep     int
+	st        *stats
+	A, B      *Inst
+	levels    []*level // levels[h], levels[0] = genesis
+	tr        *tracker
+	beh       rep.Behaviour
+	upto      int
+	failed    bool
+	perturbed bool
+	base      uint32 // lowest height A can be rolled back to (height of the last restore)
+	diffKey   string
+	quiet     bool // build and process only (used by the checkpoint mode)
 }
 
 const maxSession = 3
 
 func newRunner(env *Env, sweep int, st *stats) *runner {
-	r := &runner{env: env, sweep: sweep, st: st, tr: &tracker{orderProp: map[common.Uint256]int{}}}
+	r := &runner{env: env, sweep: sweep, st: st, diffKey: "C22:rollback-diff:", tr: &tracker{orderProp: map[common.Uint256]int{}}}
 	r.A, r.B = env.NewInst(), env.NewInst()
 	r.levels = []*level{{h: 0, led: newLedger(), realPaid: map[int]common.Fixed64{}, canonB: r.B.Canon()}}
 	return r
@@ -57,12 +63,16 @@ func (r *runner) ctx(extra map[string]interface{}) map[string]interface{} {
 }
 
 func (r *runner) violation(key, what string, extra map[string]interface{}) {
-	rep.Violation(key, what, r.ctx(extra))
+	if !r.quiet {
+		rep.Violation(key, what, r.ctx(extra))
+	}
 	r.failed = true
 }
 
 func (r *runner) mismatch(what string, extra map[string]interface{}) {
-	rep.Mismatch(what, r.ctx(extra))
+	if !r.quiet {
+		rep.Mismatch(what, r.ctx(extra))
+	}
 	r.failed = true
 }
 
@@ -105,6 +115,8 @@ func (r *runner) replay(b rep.Behaviour) {
 			}
 			r.st.blocks++
 			r.applyBlock(txs, ok, true)
+		case "Checkpoint":
+			r.checkpointRestore()
 		case "Rollback":
 			r.st.rollbacks++
 			r.rollback(uint32(rep.Int(st.Args(), "t")), "Rollback")
@@ -113,6 +125,9 @@ func (r *runner) replay(b rep.Behaviour) {
 		}
 		if r.failed {
 			return
+		}
+		if r.quiet {
+			continue
 		}
 		r.afterStep(st)
 		if r.failed {
@@ -210,10 +225,18 @@ func (r *runner) applyBlock(abs []Tx, ok []bool, explored bool) {
 	}
 	// rollback sweep: back to earlier heights of the current chain and forward again
 	for _, t := range r.sweepTargets(h) {
+		if t < r.base || (t == r.base && r.base > 0 && h == r.base) {
+			continue
+		}
 		r.st.sweeps++
 		if p := r.A.Rollback(t); p != nil {
 			r.violation("C22:panic:RollbackTo", fmt.Sprintf("RollbackTo(%d) from %d: %v", t, h, p), nil)
 			return
+		}
+		if os.Getenv("CRSTATE_SELFTEST") == "perturb" && !r.perturbed {
+			// binding self-test: a rollback that leaves one field behind must be noticed
+			r.perturbed = true
+			r.A.comm.KeyFrame.CirculationAmount++
 		}
 		r.compareTo(r.levels[t].canonB, fmt.Sprintf("sweep: rolled back from %d to %d", h, t), t)
 		if r.failed {
@@ -251,6 +274,32 @@ func (r *runner) sweepTargets(h uint32) []uint32 {
 	return ts
 }
 
+// checkpointRestore replaces A by a committee restored from A's checkpoint (the
+// checkpoint manager's Snapshot / Restore path).  From here on a difference to
+// the direct instance is a loss of the checkpoint (C23), not of a rollback.
+func (r *runner) checkpointRestore() {
+	cp := r.A.registered()
+	snap := cp.Snapshot()
+	if snap == nil {
+		r.violation("C23:cr-checkpoint:snapshot-failed", "Checkpoint.Snapshot() failed", nil)
+		return
+	}
+	snap.SetHeight(r.A.height)
+	buf := new(bytes.Buffer)
+	snap.Serialize(buf)
+	R := r.env.NewInst()
+	if err := R.registered().Deserialize(buf); err != nil {
+		r.violation("C23:cr-checkpoint:deserialize-error", err.Error(), nil)
+		return
+	}
+	R.registered().OnInit()
+	R.height, R.tip = r.A.height, r.A.height
+	r.A = R
+	r.base = R.height
+	r.diffKey = "C23:cr-restore-diverges:"
+	r.compareAB("after checkpoint / restore")
+}
+
 // rollback is a RollbackTo step of the behaviour.
 func (r *runner) rollback(t uint32, why string) {
 	from := r.A.height
@@ -282,7 +331,7 @@ func (r *runner) compareTo(want flat, when string, t uint32) {
 	if len(entries) > 12 {
 		entries = entries[:12]
 	}
-	r.violation("C22:rollback-diff:"+fields[0],
+	r.violation(r.diffKey+fields[0],
 		fmt.Sprintf("%s: the committee that went through the rollback(s) differs from the one that processed only the blocks up to %d in %s",
 			when, t, strings.Join(fields, ", ")),
 		map[string]interface{}{"diff(rolled-back,direct)": entries})
